@@ -376,3 +376,49 @@ def foreign_store_rule(ctx, rid: str, floor: int = 30):
                 ctx.ob(rid, key, ok, '' if ok else f'{fn.name} assigns {nm}.{t.attr}, but `{nm}` may be bound to {bad or "nothing this function created"}: '
                        'that object is not known to be new (a definition of the method returns self or a stored object), so the store changes a value shared with the caller',
                        m.rel, st.lineno)
+
+
+def impossible_sign_test_rule(ctx, rid: str, floor: int = 5):
+    """`x = abs(...)` ... `if x < 0:`  - the branch for negative values can never run (Engler: a belief contradicted by the code itself)."""
+    repo = ctx.repo
+    from ..flow import reaching_defs
+    ctx.rule(rid, 'no sign test on a value that was just made non-negative: wherever a local is bound to abs(...), no later test `x < 0` (or `<= -c`) is reached by that '
+             'binding only - the branch meant for negative inputs would be dead code', floor=floor, style='MPT')
+    n_sites = 0
+    for m in sorted(repo.modules.values(), key=lambda x: x.rel):
+        if '/testing/' in m.rel or '/cloud/' in m.rel:
+            continue
+        for fn in [f for f in ast.walk(m.tree) if isinstance(f, ast.FunctionDef)]:
+            abs_names = {st.targets[0].id for st in ast.walk(fn) if isinstance(st, ast.Assign) and len(st.targets) == 1 and isinstance(st.targets[0], ast.Name)
+                         and isinstance(st.value, ast.Call) and isinstance(st.value.func, ast.Name) and st.value.func.id == 'abs'}
+            if not abs_names:
+                continue
+            rd = reaching_defs(fn, abs_names)
+            for nm in sorted(abs_names):
+                n_sites += 1
+                dead = []
+                for c in ast.walk(fn):
+                    if isinstance(c, ast.Compare) and len(c.ops) == 1 and isinstance(c.left, ast.Name) and c.left.id == nm and isinstance(c.comparators[0], (ast.Constant, ast.UnaryOp)):
+                        try:
+                            k = ast.literal_eval(c.comparators[0])
+                        except Exception:
+                            continue
+                        if not isinstance(k, (int, float)):
+                            continue
+                        impossible = (isinstance(c.ops[0], ast.Lt) and k <= 0) or (isinstance(c.ops[0], ast.LtE) and k < 0)
+                        if not impossible:
+                            continue
+                        defs = rd.get(id(c.left), set())
+
+                        def nonneg(d):
+                            if isinstance(d, ast.Call) and isinstance(d.func, ast.Name) and d.func.id == 'abs':
+                                return True
+                            # x >>= k, x //= k, x %= k keep a non-negative value non-negative (all other definitions must be abs(...) themselves)
+                            return isinstance(d, ast.AugAssign) and isinstance(d.op, (ast.RShift, ast.FloorDiv, ast.Mod)) and isinstance(d.value, ast.Constant) \
+                                and isinstance(d.value.value, int) and d.value.value > 0
+                        if defs and all(not isinstance(d, str) and nonneg(d) for d in defs) and any(isinstance(d, ast.Call) for d in defs):
+                            dead.append(c)
+                ctx.ob(rid, f'{m.name}.{fn.name}:{nm}', not dead, '' if not dead else f'`{ast.unparse(dead[0])}` is tested after `{nm} = abs(...)`: the branch for negative values '
+                       '(e.g. inverting for a negative exponent) can never run', m.rel, (dead[0].lineno if dead else fn.lineno))
+    if n_sites == 0:
+        raise AnalysisError('no `x = abs(...)` binding found in the repository: the rule no longer has anything to look at')
